@@ -1,4 +1,4 @@
-// Package raceaudit is NOT part of any verdict. It runs free-running variants of the Engine B
+// Package raceaudit is an assumption audit (wired into bin/check for C07 and C08, see DESIGN 3.6). It runs free-running variants of the Engine B
 // scenario bodies (real goroutines, net.Pipe, real time) under `go test -race` to audit the
 // assumption that code between two visible operations is atomic, i.e. that the library is
 // free of data races on these paths. A cooperative scheduler's hand-offs are happens-before
@@ -232,4 +232,49 @@ func TestConcurrentDispatchDifferentCommands(t *testing.T) {
 	if wrong != 0 {
 		t.Errorf("%d dispatches reached a handler registered for another command (or the catch-all)", wrong)
 	}
+}
+
+// TestConcurrentDecode: what two connections of one server do all the time - decode messages with
+// the same dictionary at the same moment, and inspect them. The messages carry AVPs the dictionary
+// does not know (fresh codes every time), known AVPs and groups.
+func TestConcurrentDecode(t *testing.T) {
+	var wg sync.WaitGroup
+	for g := 0; g < 4; g++ {
+		wg.Add(1)
+		go func(g int) {
+			defer wg.Done()
+			for i := 0; i < 400; i++ {
+				m := diam.NewMessage(257, 0x80, 0, uint32(g), uint32(i), dict.Default)
+				m.NewAVP(avp.OriginHost, avp.Mbit, 0, datatype.DiameterIdentity("h.example"))
+				for k := 0; k < 8; k++ {
+					code := uint32(1000000 + g*100000 + i*8 + k)
+					m.AddAVP(diam.NewAVP(code, 0, 0, datatype.Unknown([]byte{0, 1, byte(k), 0xff})))
+					m.AddAVP(diam.NewAVP(code, avp.Vbit, uint32(7000+k), datatype.Unknown([]byte{byte(i)})))
+				}
+				m.NewAVP(avp.VendorSpecificApplicationID, avp.Mbit, 0, &diam.GroupedAVP{AVP: []*diam.AVP{
+					diam.NewAVP(avp.VendorID, avp.Mbit, 0, datatype.Unsigned32(10415)),
+					diam.NewAVP(uint32(2000000+g*100000+i), 0, 0, datatype.Unknown([]byte{9})),
+				}})
+				b, err := m.Serialize()
+				if err != nil {
+					t.Error(err)
+					return
+				}
+				r, err := diam.ReadMessage(bytes.NewReader(b), dict.Default)
+				if err != nil {
+					t.Error(err)
+					return
+				}
+				_ = r.String()
+				_ = r.PrettyDump()
+				_, _ = r.FindAVP(avp.OriginHost, 0)
+				_, _ = r.Serialize()
+				var dst struct {
+					OriginHost datatype.DiameterIdentity `avp:"Origin-Host"`
+				}
+				_ = r.Unmarshal(&dst)
+			}
+		}(g)
+	}
+	wg.Wait()
 }
